@@ -40,6 +40,10 @@ pub(super) struct DependencyGraph {
     /// `Q`. This is the reverse mapping of `transferred` to allow efficient unlocking
     /// of all dependent queries when `K` completes.
     transferred_dependents: TransferredDependents,
+
+    /// Nesting depth of the operation being traced (verification hook only).
+    #[cfg(salsa_verif)]
+    verif_depth: u32,
 }
 
 impl DependencyGraph {
@@ -83,6 +87,10 @@ impl DependencyGraph {
 
         loop {
             if let Some(result) = me.wait_results.remove(&from_id) {
+                #[cfg(salsa_verif)]
+                me.verif_trace("wake", |t, o| {
+                    verif::w(o, format_args!("t{} {result:?}", t.t(from_id)))
+                });
                 debug_assert!(!me.edges.contains_key(&from_id));
                 return result;
             }
@@ -115,6 +123,11 @@ impl DependencyGraph {
             .entry(database_key)
             .or_default()
             .push(from_id);
+        #[cfg(salsa_verif)]
+        self.verif_trace("add_edge", |t, o| {
+            let (f, to) = (t.t(from_id), t.t(to_id));
+            verif::w(o, format_args!("t{f} {} t{to}", verif::K(database_key)))
+        });
     }
 
     /// Invoked when runtime `to_id` completes executing
@@ -129,8 +142,19 @@ impl DependencyGraph {
             .remove(&database_key)
             .unwrap_or_default();
 
+        #[cfg(salsa_verif)]
+        {
+            self.verif_depth += 1;
+        }
         for from_id in dependents {
             self.unblock_runtime(from_id, wait_result);
+        }
+        #[cfg(salsa_verif)]
+        {
+            self.verif_depth -= 1;
+            self.verif_trace("unblock_runtimes_blocked_on", |_, o| {
+                verif::w(o, format_args!("{} {wait_result:?}", verif::K(database_key)))
+            });
         }
     }
 
@@ -140,6 +164,10 @@ impl DependencyGraph {
     fn unblock_runtime(&mut self, id: ThreadId, wait_result: WaitResult) {
         let edge = self.edges.remove(&id).expect("not blocked");
         self.wait_results.insert(id, wait_result);
+        #[cfg(salsa_verif)]
+        self.verif_trace("unblock_runtime", |t, o| {
+            verif::w(o, format_args!("t{} {wait_result:?}", t.t(id)))
+        });
 
         // Now that we have inserted the `wait_results`,
         // notify the thread.
@@ -180,7 +208,18 @@ impl DependencyGraph {
                 .remove(&database_key);
         }
 
+        #[cfg(salsa_verif)]
+        {
+            self.verif_depth += 1;
+        }
         unblock_recursive(self, database_key, wait_result);
+        #[cfg(salsa_verif)]
+        {
+            self.verif_depth -= 1;
+            self.verif_trace("unblock_transferred_queries_owned_by", |_, o| {
+                verif::w(o, format_args!("{} {wait_result:?}", verif::K(database_key)))
+            });
+        }
     }
 
     pub(super) fn undo_transfer_lock(&mut self, database_key: DatabaseKeyIndex) {
@@ -190,6 +229,10 @@ impl DependencyGraph {
                 .unwrap()
                 .remove(&database_key);
         }
+        #[cfg(salsa_verif)]
+        self.verif_trace("undo_transfer_lock", |_, o| {
+            verif::w(o, format_args!("{}", verif::K(database_key)))
+        });
     }
 
     /// Recursively resolves the thread id that currently owns the lock for `database_key`.
@@ -252,6 +295,35 @@ impl DependencyGraph {
             "new owner {new_owner:?} ({new_owner_thread:?}) must be blocked on {query:?} ({current_thread:?})"
         );
 
+        #[cfg(salsa_verif)]
+        let verif_before = dg.transferred.get(&query).copied();
+        #[cfg(salsa_verif)]
+        let verif_line = |dg: &DependencyGraph, kind: &str, block: bool| {
+            dg.verif_trace("transfer_lock", |t, o| {
+                let entry = |t: &mut verif::Tids<'_>, e: Option<(ThreadId, DatabaseKeyIndex)>| match e {
+                    Some((th, k)) => format!("t{},{}", t.t(th), verif::K(k)),
+                    None => "-".to_string(),
+                };
+                let cur = t.t(current_thread);
+                let owner = match new_owner_id {
+                    SyncOwner::Thread(th) => format!("T:t{}", t.t(th)),
+                    SyncOwner::Transferred => "X".to_string(),
+                };
+                let nt = t.t(new_owner_thread);
+                let before = entry(t, verif_before);
+                let after = entry(t, dg.transferred.get(&query).copied());
+                verif::w(
+                    o,
+                    format_args!(
+                        "{} t{cur} {} {owner} t{nt} before={before} after={after} {kind} {}",
+                        verif::K(query),
+                        verif::K(new_owner),
+                        block as u8
+                    ),
+                )
+            })
+        };
+
         let thread_changed = match dg.transferred.entry(query) {
             std::collections::hash_map::Entry::Vacant(entry) => {
                 // Transfer `c -> b` and there's no existing entry for `c`.
@@ -261,6 +333,8 @@ impl DependencyGraph {
             std::collections::hash_map::Entry::Occupied(mut entry) => {
                 // If we transfer to the same owner as before, return immediately as this is a no-op.
                 if entry.get() == &(new_owner_thread, new_owner) {
+                    #[cfg(salsa_verif)]
+                    verif_line(dg, "noop", false);
                     return false;
                 }
 
@@ -338,8 +412,19 @@ impl DependencyGraph {
 
         if thread_changed {
             tracing::debug!("Unblocking new owner of transfer target {new_owner:?}");
+            #[cfg(salsa_verif)]
+            {
+                dg.verif_depth += 1;
+            }
             dg.unblock_transfer_target(query, new_owner_thread);
             dg.update_transferred_edges(query, new_owner_thread);
+            #[cfg(salsa_verif)]
+            {
+                dg.verif_depth -= 1;
+                let block = current_thread != new_owner_thread
+                    && !dg.depends_on(new_owner_thread, current_thread);
+                verif_line(dg, "changed", block);
+            }
 
             // Block on the new owner, unless new owner is blocked on this query.
             // This is necessary to avoid a race between `fetch` completing and `provisional_retry` blocking on the
@@ -353,6 +438,11 @@ impl DependencyGraph {
                 Self::block_on(me, current_thread, new_owner, new_owner_thread, guard);
                 return true;
             }
+        }
+
+        #[cfg(salsa_verif)]
+        if !thread_changed {
+            verif_line(dg, "same", false);
         }
 
         false
@@ -593,6 +683,100 @@ mod edge {
         #[inline]
         pub(super) fn notify(self) {
             self.condvar.condvar.notify_one();
+        }
+    }
+}
+
+/// Verification hook (compiled only with `--cfg salsa_verif`): every graph operation appends a
+/// line with a canonical digest of the five maps to the global trace sink, from inside the
+/// critical section.
+#[cfg(salsa_verif)]
+mod verif {
+    use super::DependencyGraph;
+    pub(super) use crate::verif_trace::{K, Tids};
+    use crate::verif_trace::key_ord;
+    use std::fmt::Write;
+
+    pub(super) fn w(out: &mut String, args: std::fmt::Arguments<'_>) {
+        let _ = out.write_fmt(args);
+    }
+
+    impl DependencyGraph {
+        /// Appends `dg <depth> <op> t<me> <args> <E> <Q> <W> <T> <D>`.
+        pub(in crate::runtime) fn verif_trace(
+            &self,
+            op: &str,
+            args: impl FnOnce(&mut Tids<'_>, &mut String),
+        ) {
+            if !crate::verif_trace::is_enabled() {
+                return;
+            }
+            let op = format!("{} {op}", self.verif_depth);
+            crate::verif_trace::emit_with("dg", &op, |t, o| {
+                args(t, o);
+                o.push(' ');
+                self.verif_digest(t, o);
+            });
+        }
+
+        /// `E{..} Q{..} W{..} T{..} D{..}`: maps sorted by key, lists in stored order.
+        fn verif_digest(&self, t: &mut Tids<'_>, o: &mut String) {
+            let mut e: Vec<(usize, usize)> = self
+                .edges
+                .0
+                .iter()
+                .map(|(k, v)| (t.t(*k), t.t(v.blocked_on_id)))
+                .collect();
+            e.sort_unstable();
+            o.push_str("E{");
+            for (i, (a, b)) in e.iter().enumerate() {
+                w(o, format_args!("{}t{a}>t{b}", if i > 0 { ";" } else { "" }));
+            }
+
+            let mut q: Vec<_> = self.query_dependents.iter().collect();
+            q.sort_unstable_by_key(|(k, _)| key_ord(k));
+            o.push_str("} Q{");
+            for (i, (k, l)) in q.iter().enumerate() {
+                w(o, format_args!("{}{}=[", if i > 0 { ";" } else { "" }, K(**k)));
+                for (j, th) in l.iter().enumerate() {
+                    w(o, format_args!("{}t{}", if j > 0 { "," } else { "" }, t.t(*th)));
+                }
+                o.push(']');
+            }
+
+            let mut r: Vec<(usize, String)> = self
+                .wait_results
+                .iter()
+                .map(|(k, v)| (t.t(*k), format!("{v:?}")))
+                .collect();
+            r.sort_unstable();
+            o.push_str("} W{");
+            for (i, (a, b)) in r.iter().enumerate() {
+                w(o, format_args!("{}t{a}={b}", if i > 0 { ";" } else { "" }));
+            }
+
+            let mut tr: Vec<_> = self.transferred.iter().collect();
+            tr.sort_unstable_by_key(|(k, _)| key_ord(k));
+            o.push_str("} T{");
+            for (i, (k, (th, owner))) in tr.iter().enumerate() {
+                let th = t.t(*th);
+                w(
+                    o,
+                    format_args!("{}{}>t{th},{}", if i > 0 { ";" } else { "" }, K(**k), K(*owner)),
+                );
+            }
+
+            let mut d: Vec<_> = self.transferred_dependents.iter().collect();
+            d.sort_unstable_by_key(|(k, _)| key_ord(k));
+            o.push_str("} D{");
+            for (i, (k, l)) in d.iter().enumerate() {
+                w(o, format_args!("{}{}=[", if i > 0 { ";" } else { "" }, K(**k)));
+                for (j, dep) in l.iter().enumerate() {
+                    w(o, format_args!("{}{}", if j > 0 { "," } else { "" }, K(*dep)));
+                }
+                o.push(']');
+            }
+            o.push('}');
         }
     }
 }
